@@ -138,6 +138,8 @@ def check(ctx):
         P(v)
     if (P.pipe_info().processed, P.pipe_info().yielded) != (0, 0):
         ctx.fail('element-calls-counted', 'single-element calls changed pipe_info to %s' % P.pipe_info(), dict(element_calls=True))
+    from harness.props import multistream
+    multistream.run(ctx, ctx.scale(40, 400), {'counters'}, 'multi-C13', iters=True)
 
 
 def replay(ctx, data):
